@@ -446,7 +446,7 @@ func (r *runner) runOne(g int, i int64) (sigs []string, desc json.RawMessage, cr
 	hang := false
 	select {
 	case <-doneCh:
-	case <-time.After(time.Duration(4*r.hangSecs) * time.Second):
+	case <-time.After(time.Duration(3*r.hangSecs) * time.Second):
 		hang = true
 		cmd.Process.Kill()
 		<-doneCh
@@ -533,7 +533,11 @@ func CheckMain(id, tier string, seed int64) int {
 	if s := os.Getenv("VERIF_BUDGET_S"); s != "" {
 		budget, _ = strconv.Atoi(s)
 	}
-	r := &runner{c: c, tier: tier, seed: seed, groups: c.Groups(tier, seed), exe: exe, tmp: tmp, nworkers: nw, hangSecs: 30}
+	hang := 120 // seconds without any case progress before a worker is declared hung (cases take micro- to milliseconds)
+	if s := os.Getenv("VERIF_HANG_S"); s != "" {
+		hang, _ = strconv.Atoi(s)
+	}
+	r := &runner{c: c, tier: tier, seed: seed, groups: c.Groups(tier, seed), exe: exe, tmp: tmp, nworkers: nw, hangSecs: hang}
 	if len(r.groups) == 0 {
 		fmt.Fprintf(os.Stderr, "HARNESS-ERROR %s: empty scope\n", id)
 		return 2
@@ -711,7 +715,7 @@ func ReplayMain(path string) int {
 	exe, _ := os.Executable()
 	tmp, _ := os.MkdirTemp("", "verif-replay-")
 	defer os.RemoveAll(tmp)
-	r := &runner{c: c, tier: rf.Tier, seed: rf.Seed, groups: c.Groups(rf.Tier, rf.Seed), exe: exe, tmp: tmp, hangSecs: 30}
+	r := &runner{c: c, tier: rf.Tier, seed: rf.Seed, groups: c.Groups(rf.Tier, rf.Seed), exe: exe, tmp: tmp, hangSecs: 120}
 	sigs, desc, crash := r.runOne(rf.Group, rf.Index)
 	fmt.Printf("case: %s\n", string(desc))
 	if rf.Case != nil && desc != nil && !jsonEqual(rf.Case, desc) {
